@@ -399,7 +399,8 @@ Record dh_env_ok (ep : envelope) (seed : bytes) (kl p g : Z) : Prop := {
 Theorem roundtrip_pubkey_dh (L : CryptoLaws c) ep seed kl p g r1 r2 r3 data blob :
   derived_seed h rk rkid sd l0 l1 l2 = Ok seed -> dh_env_ok ep seed kl p g ->
   wfb r3 = true -> 8 + 3 * kl < U32 -> len r2 = 12 ->
-  (forall k w, kw_wrap c k r1 = Ok w -> len w < U32) -> (forall ct, gcm_enc c r1 r2 data = Ok ct -> len ct < U32) ->
+  (forall kek kid w, new_kek_rnd c ep r3 = Ok (kek, kid) -> kw_wrap c kek r1 = Ok w -> len w < U32) ->
+  (forall ct, gcm_enc c r1 r2 data = Ok ct -> len ct < U32) ->
   encrypt_blob c r1 r2 r3 data ep sid = Ok blob ->
   (exists blob2, (let* b := blob_unpack blob in blob_pack b false) = Ok blob2) /\
   forall X, cache_ok X ->
@@ -434,7 +435,54 @@ Proof.
     rewrite (GkdiStructs.FFCDHKey_pack_length k' _ W (GkdiStructs.FFCDHKey_pack_ok k' W)). exact Hkl.
   - intros e' He' Hcov. destruct (A e' He' Hcov) as (kid' & En' & _ & Eg'). unfold new_kek_rnd in En. rewrite En in En'. apply Ok_inj in En'.
     assert (kid' = kid) by congruence. subst kid'. exact Eg'.
-  - intros w. apply Sw.
+  - intros w. apply (Sw _ _ w En).
+Qed.
+
+(* ---- ECDH public-key mode: the envelope carries y*G in the ECDH key structure of the curve ---- *)
+Lemma encrypt_blob_new_kek key r1 r2 r3 data blob : encrypt_blob c r1 r2 r3 data key sid = Ok blob ->
+  exists kek kid, new_kek_rnd c key r3 = Ok (kek, kid).
+Proof.
+  unfold encrypt_blob. destruct (cek_generate oid_aes256_wrap r1 r2) as [[cek iv]|]; [|discriminate]. cbn [bind].
+  destruct (gcm_parameters iv) as [p|]; [|discriminate]. cbn [bind].
+  destruct (content_encrypt c oid_aes256_gcm (Some p) cek data) as [ct|]; [|discriminate]. cbn [bind].
+  destruct (new_kek_rnd c key r3) as [[kek kid]|]; [|discriminate]. eauto.
+Qed.
+
+Record ecdh_env_ok (ep : envelope) (seed : bytes) (alg : pystr) (algz : bytes) (cv : curve) (kl Ax Ay : Z) : Prop := {
+  ep_pub : gke_is_public_key ep = true;
+  ep_l0 : gke_l0 ep = l0; ep_l1 : gke_l1 ep = l1; ep_l2 : gke_l2 ep = l2; ep_rkid : gke_rkid ep = rkid;
+  ep_alg : gke_kdf_alg ep = STR_KDF_ALG; ep_params : gke_kdf_params ep = rk_kdf_params rk;
+  ep_salg : gke_secret_alg ep = alg; ep_rsalg : rk_secret_alg rk = alg;
+  ep_notdh : Model.Gkdi.str_eqb alg STR_DH = false; ep_ecdh : startswith alg STR_ECDH_P = true; ep_algz : encode_utf16z alg = Ok algz;
+  ep_priv : gke_priv_len ep = rk_priv_len rk; ep_privb : u32b (gke_priv_len ep) = true;
+  ep_point : ec_pub c cv (OS2IP (kdf c h seed KDS_SERVICE algz (bytes_of_bits (gke_priv_len ep)))) = Ok (Ax, Ay);
+  ep_wf : GkdiStructs.wf_eck {| eck_curve_name := curve_name cv; eck_key_length := kl; eck_x := Ax; eck_y := Ay |} = true;
+  ep_key : gke_l2_key ep = concat (GkdiStructs.eck_field_list cv {| eck_curve_name := curve_name cv; eck_key_length := kl; eck_x := Ax; eck_y := Ay |});
+  ep_names : names_ok (gke_flags ep) (gke_domain ep) (gke_forest ep) = true }.
+
+Theorem roundtrip_pubkey_ecdh (L : CryptoLaws c) ep seed alg algz cv kl Ax Ay r1 r2 r3 data blob :
+  derived_seed h rk rkid sd l0 l1 l2 = Ok seed -> ecdh_env_ok ep seed alg algz cv kl Ax Ay -> len r2 = 12 ->
+  (forall kek kid, new_kek_rnd c ep r3 = Ok (kek, kid) -> len (kid_key_info kid) < U32) ->
+  (forall kek kid w, new_kek_rnd c ep r3 = Ok (kek, kid) -> kw_wrap c kek r1 = Ok w -> len w < U32) ->
+  (forall ct, gcm_enc c r1 r2 data = Ok ct -> len ct < U32) ->
+  encrypt_blob c r1 r2 r3 data ep sid = Ok blob ->
+  (exists blob2, (let* b := blob_unpack blob in blob_pack b false) = Ok blob2) /\
+  forall X, cache_ok X ->
+    fst (unprotect_offline c X blob) = Ok data /\
+    forall blob2, (let* b := blob_unpack blob in blob_pack b false) = Ok blob2 -> fst (unprotect_offline c X blob2) = Ok data.
+Proof.
+  intros Es D Hr2 Ski Sw Sct He.
+  destruct D as [Dpub D0 D1 D2 Dr Da Dp Dsa Drsa Dnd Dec Dz Dpr Dprb Dpt Dwf Dkey Dn].
+  destruct (encrypt_blob_new_kek ep r1 r2 r3 data blob He) as (kek & kid & En).
+  apply (roundtrip_any_mode L ep kek kid r1 r2 r3 data blob D0 D1 D2 Dr Dn En); auto.
+  - apply (Ski _ _ En).
+  - intros e' He' Hcov. pose proof (env_ok_hash c h rk rkid sd l0 Hhash e' He') as Hh'.
+    destruct He' as [Hp' El' Er' _ _ Hc' _ Esa' Epr'].
+    pose proof (agree_ecdh c L h (root_top c h rk rkid sd l0) e' ep (fun _ => r3) seed alg algz cv kl Ax Ay kek kid Hh' (fields_hash ep Da Dp) Hp' Dpub) as A.
+    rewrite D0, D1, D2, Dr in A. unfold KDFof in A. rewrite D0, Dr in A.
+    specialize (A El' Er' ltac:(congruence) Dsa Dnd Dec Dz ltac:(congruence) Dprb Hl1 Hl2 Hc' Hcov Es). cbv zeta in A.
+    destruct (A Dpt Dwf Dkey En) as (Zs & Bx & By & _ & _ & _ & _ & Eg). exact Eg.
+  - intros w. apply (Sw _ _ w En).
 Qed.
 End AnyMode.
 
@@ -537,6 +585,99 @@ Example nonconforming_cache_entry :
   end.
 Proof. split; vm_compute; auto. Qed.
 
+
+(* ---- public-key mode instances: the DH group of KekExamples (p = 65521, g = 17, 2-byte fields) and the toy curve of Model/Sym.v ---- *)
+Ltac vm_lhs_in H := match type of H with ?l = _ => let v := eval vm_compute in l in let Ev := fresh in assert (Ev : l = v) by (vm_cast_no_check (@eq_refl _ v)); rewrite Ev in H; clear Ev end.
+Definition ex_sd : bytes := target_sd (parsed ex_sid).
+Definition ex_pk_seed : bytes := match derived_seed symg SHA512 ex_rk ex_rkid ex_sd 361 31 23 with Ok x => x | Raise _ => [] end.
+Definition ex_pk_ybytes : bytes := kdf symg SHA512 ex_pk_seed KDS_SERVICE (lit16z "DH") (bytes_of_bits 512).
+Definition ex_ep_dh : envelope :=
+  {| gke_version := 1; gke_flags := 1; gke_l0 := 361; gke_l1 := 31; gke_l2 := 23; gke_rkid := ex_rkid;
+     gke_kdf_alg := STR_KDF_ALG; gke_kdf_params := KekExamples.ex_kdf_params; gke_secret_alg := STR_DH; gke_secret_params := [];
+     gke_priv_len := 512; gke_pub_len := 16; gke_domain := [100]; gke_forest := [102; 46; 103]; gke_l1_key := [];
+     gke_l2_key := concat (GkdiStructs.ffk_field_list {| ffk_key_length := 2; ffk_field_order := 65521; ffk_generator := 17;
+                                                         ffk_public_key := modpow 17 (OS2IP ex_pk_ybytes) 65521 |}) |}.
+Lemma ex_dh_env_ok : dh_env_ok symg SHA512 ex_rk ex_rkid 361 31 23 ex_ep_dh ex_pk_seed 2 65521 17.
+Proof.
+  assert (Wy : wfb ex_pk_ybytes = true) by (vm_compute; reflexivity).
+  constructor.
+  - reflexivity. - reflexivity. - reflexivity. - reflexivity. - reflexivity. - reflexivity. - reflexivity. - reflexivity. - reflexivity.
+  - reflexivity. - reflexivity. - lia. - reflexivity. - reflexivity. - reflexivity.
+  - exact Wy.
+  - cbn [ex_ep_dh gke_l2_key gke_priv_len]. fold ex_pk_ybytes. unfold dh_public.
+    rewrite <- modpow_spec; [reflexivity|lia|]. rewrite OS2IP_be_val. apply be_val_range, Wy.
+  - reflexivity.
+Qed.
+Example example_pubkey_dh : exists blob,
+  encrypt_blob symg ex_r1 ex_r2 ex_r3 [1; 2; 3] ex_ep_dh ex_sid = Ok blob /\
+  fst (unprotect_offline symg ex_cache blob) = Ok [1; 2; 3] /\
+  exists blob2, (let* b := blob_unpack blob in blob_pack b false) = Ok blob2 /\ fst (unprotect_offline symg ex_cache blob2) = Ok [1; 2; 3].
+Proof.
+  assert (R0 : 0 <= 361 <= 2147483647) by lia. assert (R1 : 0 <= 31 <= 31) by lia. assert (R2 : 0 <= 23 <= 31) by lia.
+  assert (R3 : 8 + 3 * 2 < U32) by (unfold U32; lia).
+  assert (Hc : cache_ok symg SHA512 ex_rk ex_rkid ex_sd 361 ex_cache) by (apply cache_ok_fresh; reflexivity).
+  assert (Sw : forall kek kid w, new_kek_rnd symg ex_ep_dh ex_r3 = Ok (kek, kid) -> kw_wrap symg kek ex_r1 = Ok w -> len w < U32).
+  { intros kek kid w En Ew. vm_lhs_in En. apply Ok_inj in En. apply (f_equal fst) in En. cbn [fst] in En. subst kek.
+    vm_lhs_in Ew. apply Ok_inj in Ew. subst w. vm_compute. reflexivity. }
+  assert (Sct : forall ct, gcm_enc symg ex_r1 ex_r2 [1; 2; 3] = Ok ct -> len ct < U32) by ex_gcm_size.
+  assert (H1 : rk_hash ex_rk = Ok SHA512) by (vm_compute; reflexivity).
+  assert (H2 : sid_parse ex_sid = Ok (parsed ex_sid)) by (vm_compute; reflexivity).
+  assert (H3 : sid_okb ex_sid = true) by (vm_compute; reflexivity).
+  assert (H4 : derived_seed symg SHA512 ex_rk ex_rkid (target_sd (parsed ex_sid)) 361 31 23 = Ok ex_pk_seed) by (vm_compute; reflexivity).
+  assert (H5 : wfb ex_r3 = true) by (vm_compute; reflexivity).
+  assert (E : exists blob, encrypt_blob symg ex_r1 ex_r2 ex_r3 [1; 2; 3] ex_ep_dh ex_sid = Ok blob) by (eexists; vm_compute; reflexivity).
+  destruct E as (blob & E). exists blob. split; [exact E|].
+  destruct (roundtrip_pubkey_dh symg SHA512 ex_rk ex_rkid (parsed ex_sid) ex_sid 361 31 23 H1 eq_refl eq_refl H2 H3 R0 R1 R2
+              symg_laws ex_ep_dh ex_pk_seed 2 65521 17 ex_r1 ex_r2 ex_r3 [1; 2; 3] blob H4 ex_dh_env_ok H5 R3 eq_refl Sw Sct E) as [(blob2 & E2) HX].
+  destruct (HX ex_cache Hc) as [U1 U2]. split; [exact U1|]. exists blob2. split; [exact E2|apply U2, E2].
+Qed.
+
+Definition ex_rkE : root_key :=
+  {| rk_key := repeat 7 64; rk_version := 1; rk_kdf_alg := STR_KDF_ALG; rk_kdf_params := KekExamples.ex_kdf_params;
+     rk_secret_alg := KekExamples.ex_algE; rk_secret_params := None; rk_priv_len := 256; rk_pub_len := 256 |}.
+Definition ex_cacheE : ccache := cc_load cc_empty ex_rkid ex_rkE.
+Definition ex_pk_seedE : bytes := match derived_seed symg SHA512 ex_rkE ex_rkid ex_sd 361 31 23 with Ok x => x | Raise _ => [] end.
+Definition ex_yE : Z := OS2IP (kdf symg SHA512 ex_pk_seedE KDS_SERVICE KekExamples.ex_algzE (bytes_of_bits 256)).
+Definition ex_AE : Z * Z := match ec_pub symg P256 ex_yE with Ok A => A | Raise _ => (0, 0) end.
+Definition ex_kAE : ecdh_key := {| eck_curve_name := curve_name P256; eck_key_length := 8; eck_x := fst ex_AE; eck_y := snd ex_AE |}.
+Definition ex_ep_ecdh : envelope :=
+  {| gke_version := 1; gke_flags := 1; gke_l0 := 361; gke_l1 := 31; gke_l2 := 23; gke_rkid := ex_rkid;
+     gke_kdf_alg := STR_KDF_ALG; gke_kdf_params := KekExamples.ex_kdf_params; gke_secret_alg := KekExamples.ex_algE; gke_secret_params := [];
+     gke_priv_len := 256; gke_pub_len := 256; gke_domain := [100]; gke_forest := []; gke_l1_key := [];
+     gke_l2_key := concat (GkdiStructs.eck_field_list P256 ex_kAE) |}.
+Lemma ex_ecdh_env_ok : ecdh_env_ok symg SHA512 ex_rkE ex_rkid 361 31 23 ex_ep_ecdh ex_pk_seedE KekExamples.ex_algE KekExamples.ex_algzE P256 8 (fst ex_AE) (snd ex_AE).
+Proof.
+  constructor.
+  - reflexivity. - reflexivity. - reflexivity. - reflexivity. - reflexivity. - reflexivity. - reflexivity. - reflexivity. - reflexivity.
+  - reflexivity. - reflexivity. - reflexivity. - reflexivity. - reflexivity.
+  - vm_compute. reflexivity.
+  - vm_compute. reflexivity.
+  - reflexivity.
+  - reflexivity.
+Qed.
+Example example_pubkey_ecdh : exists blob,
+  encrypt_blob symg ex_r1 ex_r2 ex_r3 [1; 2; 3] ex_ep_ecdh ex_sid = Ok blob /\
+  fst (unprotect_offline symg ex_cacheE blob) = Ok [1; 2; 3] /\
+  exists blob2, (let* b := blob_unpack blob in blob_pack b false) = Ok blob2 /\ fst (unprotect_offline symg ex_cacheE blob2) = Ok [1; 2; 3].
+Proof.
+  assert (R0 : 0 <= 361 <= 2147483647) by lia. assert (R1 : 0 <= 31 <= 31) by lia. assert (R2 : 0 <= 23 <= 31) by lia.
+  assert (Hc : cache_ok symg SHA512 ex_rkE ex_rkid ex_sd 361 ex_cacheE) by (apply cache_ok_fresh; reflexivity).
+  assert (Ski : forall kek kid, new_kek_rnd symg ex_ep_ecdh ex_r3 = Ok (kek, kid) -> len (kid_key_info kid) < U32).
+  { intros kek kid En. vm_lhs_in En. apply Ok_inj in En. apply (f_equal snd) in En. cbn [snd] in En. subst kid. vm_compute. reflexivity. }
+  assert (Sw : forall kek kid w, new_kek_rnd symg ex_ep_ecdh ex_r3 = Ok (kek, kid) -> kw_wrap symg kek ex_r1 = Ok w -> len w < U32).
+  { intros kek kid w En Ew. vm_lhs_in En. apply Ok_inj in En. apply (f_equal fst) in En. cbn [fst] in En. subst kek.
+    vm_lhs_in Ew. apply Ok_inj in Ew. subst w. vm_compute. reflexivity. }
+  assert (Sct : forall ct, gcm_enc symg ex_r1 ex_r2 [1; 2; 3] = Ok ct -> len ct < U32) by ex_gcm_size.
+  assert (H1 : rk_hash ex_rkE = Ok SHA512) by (vm_compute; reflexivity).
+  assert (H2 : sid_parse ex_sid = Ok (parsed ex_sid)) by (vm_compute; reflexivity).
+  assert (H3 : sid_okb ex_sid = true) by (vm_compute; reflexivity).
+  assert (H4 : derived_seed symg SHA512 ex_rkE ex_rkid (target_sd (parsed ex_sid)) 361 31 23 = Ok ex_pk_seedE) by (vm_compute; reflexivity).
+  assert (E : exists blob, encrypt_blob symg ex_r1 ex_r2 ex_r3 [1; 2; 3] ex_ep_ecdh ex_sid = Ok blob) by (eexists; vm_compute; reflexivity).
+  destruct E as (blob & E). exists blob. split; [exact E|].
+  destruct (roundtrip_pubkey_ecdh symg SHA512 ex_rkE ex_rkid (parsed ex_sid) ex_sid 361 31 23 H1 eq_refl eq_refl H2 H3 R0 R1 R2
+              symg_laws ex_ep_ecdh ex_pk_seedE _ _ P256 8 _ _ ex_r1 ex_r2 ex_r3 [1; 2; 3] blob H4 ex_ecdh_env_ok eq_refl Ski Sw Sct E) as [(blob2 & E2) HX].
+  destruct (HX ex_cacheE Hc) as [U1 U2]. split; [exact U1|]. exists blob2. split; [exact E2|apply U2, E2].
+Qed.
 
 (* the data flow of _encrypt_blob the model encrypt_blob mirrors (regenerated from the source on every run) *)
 Lemma blob_flow : k_encrypt_blob_flow = true.
